@@ -40,6 +40,10 @@ def stress_docs(rnd, n):
              "> ```{verif-titles}\n> a\n>\n> ***\n> ```", "- ```{verif-titles}\n  # t\n\n  ---\n  ```",
              # a footnote whose label is also the name of an explicit target / a named directive
              "(fnt)=\n\npara\n\n[^fnt]: clash\n\nref [^fnt]", "```{tip}\n:name: fn2\nx\n```\n\n[^fn2]: clash two\n\nr [^fn2]",
+             # the same substitution (an id and a footnote reference inside) used more than once
+             "{{ prod }} one\n\ntwo {{ prod }} and {{ prod }}", "{{ blk }}",
+             # a numeric footnote label that is also another element's name
+             "## 2023\n\nyear [^2023]\n\n[^2023]: numeric clash", "$$a=b$$ (1)\n\nm [^1]\n\n[^1]: math label clash",
              # several raw nodes (a hard break makes two)
              "line a\\\nline b and <b>inline</b>\n\n<div>block</div>", "> ---\n\n~~s~~",
              '<div class="admonition">\n<![foo]>\n</div>', '<img src="a.png" alt="x">', '<div class="admonition note">\n<p class="title">T</p>\nbody\n</div>']
